@@ -1349,7 +1349,76 @@ def rule_lmnn_label_encoding(repo, rep):
       rep.unknown(R, key, site(f, st_), 'labels_ = %s' % txt)
 
 
+class _CallDepDomain(TagDomain):
+  """dependence sets ('in', <parameter>) of values; records the sets of the
+  arguments of one repository callee"""
+
+  def __init__(self, callee):
+    super().__init__()
+    self.callee = callee
+    self.seen = []
+
+  def param(self, func, name, index):
+    return frozenset([('in', name)])
+
+  def fitted_read(self, cls, name, node, st):
+    return frozenset([('in', 'self.' + name)])
+
+  def hyperparam(self, cls, name, node):
+    return frozenset([('in', 'self.' + name)])
+
+  def on_call(self, kind, target, args, kwargs, node, st):
+    super().on_call(kind, target, args, kwargs, node, st)
+    if kind == 'repo' and getattr(target, 'name', None) == self.callee:
+      self.seen.append(([set(t[1] for t in self._u(a) if t[0] == 'in')
+                         for a in args], self.site(node)))
+
+
+def rule_lmnn_radius(repo, rep):
+  R = 'R-FLOW:lmnn-margin-radius-follows-the-metric'
+  rep.rule(R, 'the margin radius of the impostor search - the furthest '
+           'target neighbour of each point - is determined under the CURRENT '
+           'transformation: the reference points handed to _find_impostors '
+           'depend on L (through the distances to the target neighbours), '
+           'not only on the stored neighbour lists, whose order is that of '
+           'the Euclidean distances at the start')
+  c = repo.get_class('LMNN')
+  f = repo.resolve_method(c, '_loss_grad') if c is not None else None
+  key = 'lmnn.LMNN._loss_grad:_find_impostors'
+  if f is None:
+    rep.unknown(R, key, '', 'method vanished')
+    return
+  rep.analysed(f)
+  dom = _CallDepDomain('_find_impostors')
+  Engine(repo, dom, self_cls=c).run(f)
+  if not dom.seen:
+    rep.unknown(R, key, site(f), 'no call of _find_impostors')
+    return
+  lname = next((p for p in f.params() if p in ('L', 'transformation')), None)
+  if lname is None:
+    rep.unknown(R, key, site(f), 'parameter holding the transformation not '
+                'identified (%s)' % f.params())
+    return
+  for (deps, s_) in dom.seen:
+    # first explicit argument = the reference (furthest) neighbours
+    ref = deps[0] if deps else set()
+    if lname in ref:
+      rep.derived(R, key, s_)
+    elif ref:
+      rep.refuted(R, key, s_, 'the reference neighbours of the impostor '
+                  'search depend on %s only, not on the current '
+                  'transformation %s: once the metric has moved away from '
+                  'the Euclidean one another target neighbour is the '
+                  'furthest, its margin violators are missed and the value '
+                  'and gradient are not those of the documented objective'
+                  % (sorted(ref), lname))
+    else:
+      rep.unknown(R, key, s_, 'dependences of the reference neighbours not '
+                  'derivable')
+
+
 def check(repo, rep, tier):
+  rule_lmnn_radius(repo, rep)
   rule_lmnn_acceptance(repo, rep)
   rule_optimizer_handoff(repo, rep)
   rule_zero_iterations(repo, rep)
